@@ -153,6 +153,7 @@ class NumericTable:
         self.systems = {}  # name -> {"using": [...], "rules": [[new, old|None], ...]}
         self.defaults = {}
         self.toplevel = []  # units defined outside any group
+        self.contexts = {}  # name -> {"aliases", "defaults", "rules": [(src dims, dst dims, equation)], "redefs"}
 
     @classmethod
     def from_file(cls, path):
@@ -178,6 +179,16 @@ class NumericTable:
                 continue
             if line.startswith("@"):
                 block = line.split()[0].split("(")[0]
+                if block == "@context":
+                    m = re.match(r"@context\s*(\((?P<d>.*)\))?\s+(?P<n>\w+)\s*(=(?P<a>.*))?", line)
+                    defaults = {}
+                    if m.group("d"):
+                        for part in m.group("d").split(","):
+                            k, _, v = part.partition("=")
+                            defaults[k.strip()] = float(v)
+                    self._ctx = {"name": m.group("n"), "aliases": [a.strip() for a in (m.group("a") or "").split("=") if a.strip()],
+                                 "defaults": defaults, "rules": [], "redefs": []}
+                    self.contexts[m.group("n")] = self._ctx
                 if block in ("@group", "@system"):
                     head = line.split(None, 1)[1]
                     bname, _, using = head.partition(" using ")
@@ -200,6 +211,7 @@ class NumericTable:
                 self.defaults[k.strip()] = v.strip()
                 continue
             if block == "@context":
+                self._context_line(raw_line=line)
                 continue
             parts = [x.strip() for x in line.split("=")]
             name, value, rest = parts[0], parts[1], parts[2:]
@@ -227,6 +239,18 @@ class NumericTable:
                 self.defs[name] = ("expr", parse_value(main), offset)
             if not mult and "logbase" not in mods:
                 self.defs["delta_" + name] = ("expr", parse_value(main), 0.0)
+
+    def _context_line(self, raw_line):
+        line = raw_line
+        if ":" in line and ("->" in line):
+            rel, eq = line.split(":", 1)
+            bidir = "<->" in rel
+            a, b = rel.split("<->" if bidir else "->")
+            self._ctx["rules"].append((parse_dim(a), parse_dim(b), eq.strip()))
+            if bidir:
+                self._ctx["rules"].append((parse_dim(b), parse_dim(a), eq.strip()))
+        elif "=" in line:
+            self._ctx["redefs"].append(line)
 
     def dimvec(self, d):
         """expand derived dimension names"""
@@ -353,3 +377,115 @@ class DefaultSystemsModel:
             kf, _ = self.root_of_spelled(k)
             fd *= kf ** e
         return f / fd, dest
+
+
+def _dimkey(d):
+    return tuple(sorted((k, round(float(v), 9)) for k, v in d.items() if abs(v) > 1e-12))
+
+
+class DefaultContextsModel:
+    """Conversions under a stack of bundled contexts, by own evaluation of the rule equations."""
+
+    def __init__(self, table: NumericTable):
+        self.t = table
+        self.rules = {}
+        for name, c in table.contexts.items():
+            self.rules[name] = [(_dimkey(table.dimvec(a)), _dimkey(table.dimvec(b)), eq) for a, b, eq in c["rules"]]
+        self.alias = {}
+        for name, c in table.contexts.items():
+            self.alias[name] = name
+            for a in c["aliases"]:
+                self.alias[a] = name
+
+    def quantity(self, x, units_str):
+        """x * units as (magnitude in root units, root monomial, dimension key)"""
+        v = self.expand(parse_value(units_str))
+        return x * v[0], v[1], v[2]
+
+    def expand(self, val: Value, env=None):
+        """a Value over spelled names -> (factor, root monomial, dims) ; env binds names to expanded triples"""
+        f, roots, dims = val.f, {}, {}
+        for spelled, e in val.u.items():
+            if env and spelled in env:
+                uf, ur, ud = env[spelled]
+            else:
+                rs = self.t.names.readings(spelled)
+                if not rs:
+                    raise KeyError(spelled)
+                pn, un = sorted(rs)[0]
+                uf, ud, ur = self.t.root(un)
+                if pn:
+                    uf = uf * self.t.names.prefixes[pn]["factor"]
+            f *= uf ** e
+            for k, x in ur.items():
+                roots[k] = roots.get(k, 0) + x * e
+            for k, x in ud.items():
+                dims[k] = dims.get(k, 0) + x * e
+        return f, {k: v for k, v in roots.items() if abs(v) > 1e-12}, {k: v for k, v in dims.items() if abs(v) > 1e-12}
+
+    def convert(self, x, src, dst, stack):
+        """stack: oldest first, entries (context name, {param: (value, units string)}).
+        Returns set of admissible outcomes: ('val', float) / ('err',)"""
+        mag, roots, dims = self.quantity(x, src)
+        df, droots, ddims = self.expand(parse_value(dst))
+        ks, kd = _dimkey(dims), _dimkey(ddims)
+        if ks == kd:
+            return {("val", mag / df)}
+        edges = {}
+        for cname, params in stack:
+            for a, b, eq in self.rules[cname]:
+                edges[(a, b)] = (cname, params, eq)
+        # all shortest paths
+        adj = {}
+        for (a, b) in edges:
+            adj.setdefault(a, []).append(b)
+        dist = {ks: 0}
+        frontier = [ks]
+        while frontier and kd not in dist:
+            nxt = []
+            for n in frontier:
+                for m2 in adj.get(n, ()):
+                    if m2 not in dist:
+                        dist[m2] = dist[n] + 1
+                        nxt.append(m2)
+            frontier = nxt
+        if kd not in dist:
+            return {("err",)}
+        paths = []
+
+        def back(node, acc):
+            if len(paths) > 32:
+                return
+            if node == ks:
+                paths.append(list(reversed(acc)))
+                return
+            for (a, b) in edges:
+                if b == node and a in dist and dist[a] == dist[node] - 1:
+                    back(a, acc + [(a, b)])
+
+        back(kd, [])
+        outs = set()
+        for path in paths:
+            cur = (mag, roots, dims)
+            for e in path:
+                cname, params, eq = edges[e]
+                env = {"value": cur}
+                declared = self.t.contexts[cname]["defaults"]
+                for p, dv in declared.items():
+                    env[p] = (dv, {}, {})
+                for p, (pv, pu) in params.items():
+                    if p in declared:
+                        pf, pr, pd = self.expand(parse_value(pu)) if pu else (1.0, {}, {})
+                        env[p] = (pv * pf, pr, pd)
+                try:
+                    cur = self.expand(parse_value(eq), env)
+                except ZeroDivisionError:
+                    cur = None
+                    break
+            if cur is None:
+                outs.add(("zerodiv",))
+            elif _dimkey(cur[2]) != kd:
+                outs.add(("err",))
+            else:
+                outs.add(("val", cur[0] / df))
+        return outs
